@@ -25,6 +25,32 @@ func verifFound(got Node, b []byte, e vrt.TElem, label string) {
 	vrt.Assert(vrt.SameSpan(got.Raw(), b, e.Start, e.End), label+".span")
 }
 
+// verifDistinctDeep assumes that no struct repeats a field id at any nesting level of the value b of type t
+// (no encoder produces such a struct, and which occurrence counts is not specified).
+func verifDistinctDeep(b []byte, t byte, depth int) {
+	if depth < 0 {
+		return
+	}
+	switch t {
+	case vrt.TSTRUCT, vrt.TLIST, vrt.TSET, vrt.TMAP:
+	default:
+		return
+	}
+	kids, ok := vrt.TChildren(b, t, depth)
+	if !ok {
+		return
+	}
+	if t == vrt.TSTRUCT {
+		verifDistinctIDs(kids)
+	}
+	for _, k := range kids {
+		verifDistinctDeep(b[k.Start:k.End], k.Typ, depth-1)
+		if t == vrt.TMAP {
+			verifDistinctDeep(b[k.KStart:k.KEnd], b[0], depth-1)
+		}
+	}
+}
+
 func verifDistinctIDs(kids []vrt.TElem) {
 	for i := range kids {
 		for j := 0; j < i; j++ {
@@ -245,6 +271,9 @@ func verifIfaceEq(v interface{}, b []byte, t byte, opts *Options, depth int) boo
 		if !ok2 {
 			return false
 		}
+		// a struct that repeats a field id has no single Go value (which occurrence wins is not specified):
+		// such layouts are outside the comparison at every nesting level
+		verifDistinctIDs(kids)
 		if opts.MapStructById {
 			x, ok := v.(map[thrift.FieldID]interface{})
 			if !ok || len(x) != len(kids) {
@@ -273,6 +302,12 @@ func verifIfaceEq(v interface{}, b []byte, t byte, opts *Options, depth int) boo
 		kids, ok2 := vrt.TChildren(b, t, depth)
 		if !ok2 {
 			return false
+		}
+		// likewise a map that repeats a key (at any nesting level)
+		for i := range kids {
+			for j := 0; j < i; j++ {
+				vrt.Assume(!vrt.BytesEq(b, kids[i].KStart, kids[i].KEnd, b, kids[j].KStart, kids[j].KEnd))
+			}
 		}
 		kt := b[0]
 		switch {
